@@ -363,6 +363,13 @@ def run_concrete(H, case, values, ufs, findings_open, canary=None, ignore_findin
 
 def run_task(task):
     t0 = time.time()
+    sd = os.environ.get("PVX_STATUS_DIR")        # debugging aid: which work item does this process run
+    if sd:
+        try:
+            with open(os.path.join(sd, "%d.json" % os.getpid()), "w") as f:
+                json.dump({k: (v if k != "prefix" else len(v or [])) for k, v in task.items() if k != "opts"}, f, default=str)
+        except OSError:
+            pass
     out = {"task": {k: v for k, v in task.items() if k != "prefix"}, "violations": [], "errors": [],
            "samples": [], "signatures": [], "reached": {}, "subtasks": [], "complete": True}
     try:
